@@ -153,8 +153,30 @@ PubPoint(pr, f) ==
       [] f = "uncomp_neg"    -> "negy"
       [] OTHER               -> "y"
 
+(* ---------------- MuSig2 nonces (BIP327) ------------------------------- *)
+\* A public nonce is two plain points (cpoint: 02/03 || x of a curve point);
+\* an aggregate nonce is two points of which each may also be the point at
+\* infinity, written as exactly 33 zero bytes (cpoint_ext / cbytes_ext).
+\* For these two parsers `shape` / `xc` are the forms of the first / second half:
+\*   even 02 x | odd 03 x | zero33 33 zero bytes | zero_junk 00 followed by 32 non-zero bytes
+\*   tag04 04 x | offc 02 x' with x' on no curve point | xgep 02 (p + x0)
+\* musig.pubnonce = musig2.AggregateNonces of that single nonce (NonceAgg),
+\* musig.aggnonce = musig2.Sign given that aggregate nonce (GetSessionValues).
+HalfForms    == {"even", "odd", "zero33", "zero_junk", "tag04", "offc", "xgep"}
+HalfPlain(h) == h \in {"even", "odd"}
+HalfExt(h)   == HalfPlain(h) \/ h = "zero33"
+NonceParsers == {"musig.pubnonce", "musig.aggnonce"}
+NonceCases ==
+    {x \in {[parser |-> pr, shape |-> h1, rc |-> NA, sc |-> NA, xc |-> h2, inst |-> i] :
+                pr \in NonceParsers, h1 \in HalfForms, h2 \in HalfForms, i \in 1..Instances} :
+        HalfPlain(x.shape) \/ HalfPlain(x.xc) \/ (x.shape = "zero33" /\ x.xc = "zero33")}
+NonceVerdict(pr, h1, h2) ==
+    IF pr = "musig.pubnonce"
+    THEN IF HalfPlain(h1) /\ HalfPlain(h2) THEN "accept" ELSE "reject"
+    ELSE IF HalfExt(h1) /\ HalfExt(h2) THEN "accept" ELSE "reject"
+
 (* ---------------- the case machine ------------------------------------- *)
-Cases == EcdsaCases \cup SchnorrSigCases \cup PubCases
+Cases == EcdsaCases \cup SchnorrSigCases \cup PubCases \cup NonceCases
 
 None == [verdict |-> "none", rv |-> NA, sv |-> NA, point |-> NA, reser |-> NA]
 
@@ -169,6 +191,8 @@ Judge ==
         ELSE IF c.parser = "schnorr.sig"
         THEN [verdict |-> SchnorrSigVerdict(c.shape, c.rc, c.sc), rv |-> c.rc, sv |-> c.sc,
               point |-> NA, reser |-> "same"]
+        ELSE IF c.parser \in NonceParsers
+        THEN [verdict |-> NonceVerdict(c.parser, c.shape, c.xc), rv |-> NA, sv |-> NA, point |-> NA, reser |-> NA]
         ELSE [verdict |-> PubVerdict(c.parser, c.shape, c.xc), rv |-> NA, sv |-> NA,
               point |-> PubPoint(c.parser, c.shape), reser |-> "canon"]
     /\ UNCHANGED c
@@ -190,6 +214,7 @@ RangeSound ==
     expect.verdict \in {"accept", "may"} =>
         CASE c.parser \in EcdsaParsers -> InRange(c.rc) /\ InRange(c.sc)
           [] c.parser = "schnorr.sig"  -> BelowP(c.rc) /\ BelowN(c.sc)
+          [] c.parser \in NonceParsers -> HalfExt(c.shape) /\ HalfExt(c.xc)
           [] OTHER                     -> XOnCurve(c.xc)
 
 \* the strict parsers have no freedom
